@@ -143,6 +143,10 @@ class ProducerWorld(ClientWorld):
                 d.addBoth(fired)
         elif kind == "wait":
             pass
+        elif kind == "close_client":
+            # the application closes the KafkaClient under the producer: every later attempt is refused at once
+            self.client_closed_step = self.step
+            self.client.close()
         else:
             raise ValueError(op)
 
@@ -154,8 +158,12 @@ class ProducerWorld(ClientWorld):
 
     def quiescent(self):
         """Only periodic timers (batch LoopingCall) may remain."""
+        pc = self.cfg.get("producer", {})
+        queued = [s for s in self.sends if s.d is not None and not s.fired and not s.call_steps]
+        qn = sum(len(s.msgs) for s in queued)
         if any(not s.fired for s in self.sends if s.d is not None and (
-                s.call_steps or not self.cfg.get("producer", {}).get("batch_send"))):
+                s.call_steps or not pc.get("batch_send") or (pc.get("batch_every_n") and
+                                                             qn >= pc["batch_every_n"]))):
             return False
         for c in self.clock.pending():
             name = getattr(c.func, "__qualname__", "") or repr(c.func)
@@ -423,9 +431,15 @@ class ProducerWorld(ClientWorld):
                     self.viol("negotiation", "neg:send-fails-against-correct-broker:%s" % s.result.type.__name__,
                               "send %d failed with %r although the broker answered every request correctly (reply "
                               "decoded with the wrong layout?)" % (s.i, s.result.value))
+        pc = self.cfg.get("producer", {})
+        queued = [s for s in self.sends if s.d is not None and not s.fired and not s.call_steps]
+        qn = sum(len(s.msgs) for s in queued)
+        qb = sum(len(m) for s in queued for m in s.msgs if m is not None)
+        over = bool(pc.get("batch_send")) and ((pc.get("batch_every_n") and qn >= pc["batch_every_n"]) or
+                                               (pc.get("batch_every_b") and qb >= pc["batch_every_b"]))
         for s in self.sends:
             if s.d is not None and not s.fired and (s.call_steps or self.stop_called_step is not None or
-                                                    not self.cfg.get("producer", {}).get("batch_send")):
+                                                    not pc.get("batch_send") or over):
                 self.viol("exactly-once", "send-never-resolves%s" % ("-horizon" if horizon else ""),
                           "send %d (%s) never resolved (schedule %r)" % (s.i, s.topic, self.trace[-12:]))
         if self.PROP == "C09":
